@@ -693,6 +693,13 @@ Section CpMachine.
       inversion Hs; subst. unfold cp_minv; simpl. split; [exact HC|]. apply recover_trace_ok; assumption.
     - (* OReplay *) destruct m as [|tr|]; try discriminate. destruct tr; [|discriminate].
       inversion Hs; subst. unfold cp_minv; simpl. split; [exact HC|]. destruct HM as [_ I]. exact I.
+    - (* OCommitFails *) destruct m as [| |v]; try discriminate.
+      destruct (v_phase B W v) eqn:EP; try discriminate.
+      destruct (v_chan B W v); try discriminate. destruct (adjust _ _); [|discriminate].
+      inversion Hs; subst; clear Hs. unfold cp_minv; simpl. split; [exact HC|exact HM].
+    - (* OFlushFails *) destruct m as [| |v]; try discriminate.
+      destruct (v_sync B W v); try discriminate. destruct (1 <=? _); [|discriminate].
+      inversion Hs; subst. unfold cp_minv; simpl. split; [exact HC|exact HM].
   Qed.
 
   Lemma both_run_from : forall ops s, Inv s -> cp_minv s -> Inv (run s ops) /\ cp_minv (run s ops).
